@@ -286,14 +286,16 @@ def degenerate(chk, exe, rng, reps):
                         continue
                     bl.append('vd 0 resize %d %d %d %d' % (t, n2, n2, nf2))
                     both = bl + [l.replace('vd 0 ', 'vd 1 ', 1) for l in bl]
-                    for dst in range(11):
-                        s = both + ['vd 2 alloc', 'vd 2 init 5 3 3 2', 'vd 2 set_fz0 1 2 %s' % vlib.c2h(33.0),       # a dirty target
+                    for dst, fresh in [(d_, f_) for d_ in range(11) for f_ in ((False, True) if nf2 == 0 else (rng.random() < 0.3,))]:
+                        # the target: one that held other data before (a dirty target), or one vnadata_alloc just returned (it never held
+                        # a frequency or a port: nothing is allocated in it)
+                        s = both + ['vd 2 alloc'] + ([] if fresh else ['vd 2 init 5 3 3 2', 'vd 2 set_fz0 1 2 %s' % vlib.c2h(33.0)]) + [
                                     'vd 0 convert 0 %d' % dst, 'vd 1 convert 2 %d' % dst, 'vd 0 digest', 'vd 2 digest', 'vd 0 has_fz0', 'vd 2 has_fz0',
                                     'vd 0 free', 'vd 1 free', 'vd 2 free']
                         out, rc, err = vlib.run_lines(exe, s)
                         chk.evaluations += 1
-                        tag = 'type %d, %dx%d with %d frequencies resized to %dx%d with %d, %s impedances, to type %d' % (
-                            t, n1_, n1_, nf1, n2, n2, nf2, 'per-frequency' if perF else 'ordinary', dst)
+                        tag = 'type %d, %dx%d with %d frequencies resized to %dx%d with %d, %s impedances, to type %d (%s target)' % (
+                            t, n1_, n1_, nf1, n2, n2, nf2, 'per-frequency' if perF else 'ordinary', dst, 'fresh' if fresh else 'used')
                         if rc != 0 or len(out) != len(s):
                             chk.violation('sanitizer-degenerate', '%s: crash / sanitizer report:\n%s' % (tag, err[-1200:]), s[:len(out) + 1])
                             return
@@ -306,7 +308,7 @@ def degenerate(chk, exe, rng, reps):
                                 tag, out[-7][:300], out[-5], out[-6][:300], out[-4]), s)
                             return
                         chk.count('degenerate_' + ('ok' if r_in.startswith('ok') else 'refused'))
-                        chk.distinct.add(('degenerate', t, n2, nf2, perF, dst))
+                        chk.distinct.add(('degenerate', t, n2, nf2, perF, dst, fresh))
 
 
 def chain(chk, exe, rng, count):
